@@ -85,6 +85,7 @@ def build(seed, pi, subset):
         "tmpl.zot": "# template\n\n## {{ name }}\n\n" + note_lines + joined,
         "zoq/saved.zoq": "# W #t\n#\n" + note_lines,
         "unrelated.txt": "not a zorg file " + " ".join(els) + "\n",
+        "endings/utf8.zo": "# caf\u00e9 \u2014 \u2713 page\n\n" + note_lines + joined + "- 240121#LU last line \u2713 of the page\n",
         # not z-files either, although '.zo' occurs in their names
         "other.zo~": page, "notes.zox": page, "deep/inner.zo.bak": page, "deep/.hidden.zo.tmp": page,
         # bytes a line-by-line rewrite would normalise: no final newline, two final
